@@ -11,6 +11,9 @@ CONSTANTS
   MaxFail = 1000
   MaxTasks = 1000
   StopAllowed = {"R1"}
+  MaxStops = 3
+  ParentCancelAllowed = {"R1"}
+  StopWaits = TRUE
 SPECIFICATION TSpec
 CONSTRAINT HW
 INVARIANTS NoOverlap StopFinal FreshAtQuiescence CleanupAtMostOnce NoCleanupWhileLive CleanupExactlyOnceAtQuiescence TrackerExact
